@@ -28,7 +28,7 @@ def wrapper_groups(props=("C11",), tier="quick"):
 
 def groups(tier, seed):
     from checks import C13, C08
-    gs = wrapper_groups(tier=tier) + layer_s.strassen_groups(["C11", "C01", "C09", "C12"]) + layer_s.tri_groups(["C11", "C04", "C05", "C09"])
+    gs = wrapper_groups(tier=tier) + layer_s.strassen_groups(["C11", "C01", "C09", "C12"]) + layer_s.tri_groups(["C11", "C04", "C05", "C09"]) + layer_s.solve_groups(["C11", "C06", "C07", "C09"]) + layer_s.ech_groups(["C11", "C02", "C09"]) + layer_s.front_groups(["C11", "C03", "C05"])
     # carriers: a sample of kernel contracts whose built-in safety obligations count for C11
     car = [g for g in C13.rowop_groups("quick") if ".view1" in g.gid and ("x200" in g.gid or "x320" in g.gid or "x65" in g.gid)]
     car += [g for g in C08.move_groups("quick") if "_mzd_add.2x573" in g.gid or "mzd_transpose.17x65.null" in g.gid or "mzd_submatrix.2x61-at-1,3" in g.gid]
